@@ -299,10 +299,10 @@ def run(ck, progs):
     describe(ck)
     from . import c02
     for cfg, prog in progs.items():
-        r07a(ck, prog)
-        r07b(ck, prog)
+        ck.attempt(r07a, ck, prog)
+        ck.attempt(r07b, ck, prog)
         before = len(ck.instances)
-        c02.r02g(ck, prog)
+        ck.attempt(c02.r02g, ck, prog)
         for i in ck.instances[before:]:
             i["rule"] = "R07b"
         for v in ck.violations:
